@@ -90,7 +90,11 @@ def gen_tls_conn(R, cid, cfg, used, pair=None, **epkw):
             pairs = [p for p in pairs if p[0] in cfg["versions"]]
         if cfg.get("suite_filter"):
             pairs = [p for p in pairs if cfg["suite_filter"](T.SUITES[p[1]])]
-        pair = R.choice(pairs)
+        # choose the version first (TLS 1.3 has only 5 of the 408 pairs but is what most traffic uses), then the suite
+        vers = sorted(set(p[0] for p in pairs))
+        wts = {T.SSL30: 10, T.TLS10: 15, T.TLS11: 15, T.TLS12: 35, T.TLS13: 25}
+        v = R.weighted([(x, wts.get(x, 10)) for x in vers])
+        pair = R.choice([p for p in pairs if p[0] == v])
     ver, code = pair
     s = T.SUITES[code]
     v6 = R.chance(cfg.get("v6_pct", 30))
